@@ -5576,3 +5576,72 @@ func c17r19(c *Ctx, r *Report) {
 	}
 	r.floor("branches on errors of module parsers in options.go", n, 50)
 }
+
+// c04r15: results are ranked only when the query has something to rank by; an empty query — also one that is
+// evaluated by the matcher because items are excluded — keeps the input order. Pattern.sortable may therefore
+// become `true` only where a term that is not negated was seen; it must not start out as true on any branch
+// (D51: the --no-extended branch of BuildPattern left `sortable` at its initial true: after `exclude` with an
+// empty query the list was re-ordered by length).
+func c04r15(c *Ctx, r *Report) {
+	l := c.L
+	r.rule("C04-R15", "A (every `true` that reaches Pattern.sortable was earned)", "P1",
+		"in BuildPattern, every constant true that can flow into the value stored in Pattern.sortable comes from a block that is control dependent on a test of a term's `inv` flag; every other contribution is computed",
+		"with --no-extended, an empty query and excluded items the list is sorted by the tiebreak instead of staying in input order")
+	bp := l.Fn("fzf", "BuildPattern")
+	fS := l.Field("fzf", "Pattern", "sortable")
+	if bp == nil || fS == nil {
+		r.unest("anchors", token.NoPos, nil, "anchors BuildPattern / Pattern.sortable", "cannot resolve")
+		return
+	}
+	cds := controlConds(bp)
+	n := 0
+	eachInstr(bp, func(in ssa.Instruction) {
+		st, ok := in.(*ssa.Store)
+		if !ok {
+			return
+		}
+		if fld, _ := fieldOf(st.Addr); fld != fS {
+			return
+		}
+		seen := map[*ssa.Phi]bool{}
+		var walk func(v ssa.Value, from *ssa.BasicBlock)
+		walk = func(v ssa.Value, from *ssa.BasicBlock) {
+			if phi, ok := v.(*ssa.Phi); ok {
+				if seen[phi] {
+					return
+				}
+				seen[phi] = true
+				for i, e := range phi.Edges {
+					walk(e, phi.Block().Preds[i])
+				}
+				return
+			}
+			k, isK := v.(*ssa.Const)
+			if !isK || k.Value == nil || k.Value.String() != "true" {
+				return
+			}
+			n++
+			earned := false
+			for cond := range cds[from] {
+				for w := range backwardSlice(cond, nil, nil) {
+					if fld, _ := loadedField(w); fld != nil && fld.Name() == "inv" {
+						earned = true
+					}
+					if f2, ok := w.(*ssa.Field); ok {
+						if f2.X.Type().Underlying().(*types.Struct).Field(f2.Field).Name() == "inv" {
+							earned = true
+						}
+					}
+				}
+			}
+			pos := bp.Pos()
+			if from != nil && len(from.Instrs) > 0 {
+				pos = from.Instrs[len(from.Instrs)-1].Pos()
+			}
+			r.check(earned, fmt.Sprintf("%s:constant true #%d reaching Pattern.sortable follows a non-negated term", relName(bp), n), pos, bp,
+				"set under a test of term.inv", "sortable is true on a path that has not seen a term that is not negated (e.g. the empty query of --no-extended)")
+		}
+		walk(st.Val, st.Block())
+	})
+	r.floor("constants flowing into Pattern.sortable", n, 1)
+}
